@@ -228,7 +228,7 @@ def check_history(ctx, lines, long_params, label, stats):
             mi += n
             if True:
                 m = re.match(r"ok stat=(\S+) mods=", a)
-                mm = re.match(r"stat=(\S+) gc=(\S+)", ans)
+                mm = re.match(r"stat=(\S+) gc=(\S+)(?: cov=(\S+) reach=(\d+))?", ans)
                 stats["ops"] += 1
                 if not m or not mm:
                     problems.append((k, "tie", f"unparsable answers impl={a[:80]} model={ans[:80]}"))
@@ -237,6 +237,10 @@ def check_history(ctx, lines, long_params, label, stats):
                         problems.append((k, "tie", f"heap stat differs: real {m.group(1)} vs model {mm.group(1)}"))
                     if mm.group(2) not in ("ok", "none"):
                         problems.append((k, "tie", f"GC call sequence is not the modelled gcStep: {mm.group(2)}"))
+                    if mm.group(3) and mm.group(3) != "ok":
+                        problems.append((k, "cov", f"a string the server state holds is not covered by the GC marker (hypothesis Cov of gc_safe fails on this real state): {mm.group(3)}"))
+                    if mm.group(4):
+                        stats["reach"] = stats.get("reach", 0) + int(mm.group(4))
                     if "W10000" in a:
                         stats["sweeps"] += 1
         if a.startswith("panic"):
@@ -248,6 +252,11 @@ def check_history(ctx, lines, long_params, label, stats):
 
 
 def run(ctx):
+    # translator: exhaustive string walker regenerated from the current AST / type definitions
+    rc, out = common.sh(["python3", os.path.join(common.VERIF, "extract", "c11_walker.py")])
+    if rc != 0:
+        ctx.violation("translator extract/c11_walker.py can no longer read the AST/type definitions: " + out.strip()[-300:],
+                      {"broken": "extract/c11_walker.py", "log": out[-3000:]}, no_input=True)
     res = common.proof_gate(ctx)
     rng = ctx.rng
     nh = ctx.scale(48, 1200)
